@@ -5,6 +5,36 @@ from .c03 import ref_interp
 
 DELIMS = [";", ",", "|", "::", "\t", " ; ", "ab"]
 
+# characters that are ordinary text to a delimited line (the property: split on the delimiter, trim blanks, nothing else) but that
+# text-processing machinery gives a meaning to: quoting and escaping (csv, shlex), comments, regular-expression / glob / format syntax
+MARKS = "\"\"''`\\#$%&*()[]{}^?+<>=~!@"
+PLAIN = "abXY019._-"
+
+
+def gen_marked_literal(rng, n):
+    """a literal of at most n characters without surrounding blanks in which such characters stand where they matter to that
+    machinery: at the very start of the token, at its end, around it as a pair, doubled, in the middle, after an escape character"""
+    m = rng.choice(MARKS)
+    body = "".join(rng.choice(PLAIN + " ") for _ in range(rng.randint(0, max(0, n - 2)))).strip()
+    shape = rng.randrange(7)
+    if shape == 0:
+        s = m + body                                  # opens and never closes
+    elif shape == 1:
+        s = body + m                                  # closes what was never opened
+    elif shape == 2:
+        s = m + body + {"(": ")", "[": "]", "{": "}", "<": ">"}.get(m, m)   # a quoted / bracketed word
+    elif shape == 3:
+        k = rng.randint(0, len(body))
+        s = body[:k] + m + body[k:]                   # in the middle
+    elif shape == 4:
+        k = rng.randint(0, len(body))
+        s = body[:k] + m + m + body[k:]               # doubled (csv's escape of a quote)
+    elif shape == 5:
+        s = m + body[: len(body) // 2] + m + body[len(body) // 2:]          # closed early, text after the closing one
+    else:
+        s = "".join(rng.choice(MARKS + PLAIN) for _ in range(rng.randint(1, n)))
+    return s[:n].strip()
+
 
 def rendering(fd, v):
     """reference rendering of one value: the field written alone at column 0 (C01/C02 cover it)"""
@@ -23,7 +53,10 @@ class CHECK(Check):
             "random blank padding around tokens, truncated to fewer tokens (short), extended with surplus tokens (long), "
             "and lines of garbage tokens; after every read all values are compared. non-trivial = the sequence contains "
             "a short line after a longer one, or padding; distinct = hash"
-            " Later additions: three ways of driving the line (one Line, a new Line over the same Field objects per call, reads only).")
+            " Later additions: three ways of driving the line (one Line, a new Line over the same Field objects per call, reads only). "
+            "Round 11: in 40 % of the layouts with a literal field, literal values hold characters that are ordinary text to a delimited line but "
+            "carry meaning for text-processing machinery (double / single / back quote, backslash, # $ % & * ( ) [ ] { } ^ ? + < > = ~ ! @) "
+            "at the start of the token, at its end, around it, doubled, in the middle; garbage and surplus tokens include such tokens too.")
 
     def gen(self, tier, rng):
         n = 4000 if tier == "quick" else 100000
@@ -31,9 +64,14 @@ class CHECK(Check):
             fs = fl.gen_layout(rng, nmax=6, gaps=rng.random() < 0.5)
             d = rng.choice(DELIMS)
             nlines = rng.randint(1, 6)
+            marked = rng.random() < 0.4 and any(fd["k"] == "lit" for fd in fs)
             lines = []
             for _ in range(nlines):
                 vals = [fl.gen_value(rng, fd) for fd in fs]
+                if marked:
+                    # literal values holding quote / escape / comment / pattern characters (round 11)
+                    vals = [["str", gen_marked_literal(rng, fd["size"])] if fd["k"] == "lit" and v is not None and v[0] == "str" and rng.random() < 0.6 else v
+                            for fd, v in zip(fs, vals)]
                 kind = rng.choice(["exact", "exact", "padded", "short", "short", "long", "garbage"])
                 lines.append({"values": vals, "kind": kind, "k": rng.randint(0, max(0, len(fs) - 1)), "seed": rng.getrandbits(30)})
             # how the implementation is driven: one Line object for everything; a new Line object over the same Field objects for
@@ -61,8 +99,8 @@ class CHECK(Check):
         if kind == "short":
             return d.join(toks[: ln["k"]]) + r.choice(["\n", ""])
         if kind == "long":
-            return d.join(toks + [r.choice(["x", "99", "", " 1.5 "]) for _ in range(r.randint(1, 3))]) + "\n"
-        return d.join(r.choice(["", "x", "-", "1e", "12", "2020", " . "]) for _ in range(r.randint(0, len(toks) + 1))) + "\n"
+            return d.join(toks + [r.choice(["x", "99", "", " 1.5 ", "\"", "'y"]) for _ in range(r.randint(1, 3))]) + "\n"
+        return d.join(r.choice(["", "x", "-", "1e", "12", "2020", " . ", "\"12\"", "\"x", "'7'", "\\", "#"]) for _ in range(r.randint(0, len(toks) + 1))) + "\n"
 
     def impl(self, case):
         from cfinterface.components.line import Line
@@ -182,6 +220,8 @@ class CHECK(Check):
                 if j < len(toks):
                     exp = ref_interp(dict(fd, start=0), toks[j][: fd["size"]])
                     if got != exp:
+                        if ln["kind"] in ("exact", "padded"):
+                            return "written line read back: token read differs from the reference interpretation of the token"
                         return "token read differs from the reference interpretation of the token"
                 else:
                     if got is not None:
@@ -199,6 +239,11 @@ class CHECK(Check):
         d = {"fields_%d" % len(case["fields"]): 1, "lines_%d" % len(case["lines"]): 1, "delim_len_%d" % len(case["delim"]): 1, "via_" + case.get("via", "line"): 1}
         for ln in case["lines"]:
             d["line_" + ln["kind"]] = d.get("line_" + ln["kind"], 0) + 1
+            marks = [v[1] for v in ln["values"] if v is not None and v[0] == "str" and any(c in MARKS for c in v[1])]
+            if marks:
+                d["line_with_marked_literal"] = d.get("line_with_marked_literal", 0) + 1
+            if any(m[0] in "\"'" for m in marks):
+                d["line_with_literal_starting_with_a_quote"] = d.get("line_with_literal_starting_with_a_quote", 0) + 1
         return d
 
     def signature(self, case, why):
